@@ -63,7 +63,7 @@ func checkC11(c Node) Verdict {
 	}
 	for _, f := range sig {
 		switch f {
-		case "sub", "exists", "insub", "with", "derived", "orderby", "groupby", "distinct", "union":
+		case "sub", "exists", "insub", "with", "derived", "orderby", "groupby", "distinct", "union", "fn:fuse":
 			v.Nontrivial = true
 		}
 		if len(f) > 4 && (f[:4] == "agg:" || f[:5] == "join:") {
